@@ -121,6 +121,10 @@ class Workflow(object):
                 unify=False)
             e.fix()
             for node, expr in inputs:
+                # A use that says nothing about the type of its input (the
+                # type is still a variable) must not override other uses
+                if isinstance(expr.type.follow(), TypeVariable):
+                    continue
                 t = min_type.get(node, None)
                 if node in self.sources and (not t
                         or expr.type.is_subtype(t, True) is not False):
